@@ -311,7 +311,8 @@ func main() {
 			for _, snap := range []string{"", "snap"} {
 				for _, cand := range []string{"", "x"} {
 					for _, ow := range []bool{false, true} {
-						for _, vm := range []uint32{0, 2, 3} { // 3: a valid launch count outside the GCE-supported list
+						// 3: a valid launch count outside the GCE-supported list; 256 and 1024: beyond one byte
+						for _, vm := range []uint32{0, 2, 3, 256, 1024} {
 							for _, sh := range [][]string{nil, {"c3-standard-4"}} {
 								for _, pre := range []bool{false, true} {
 									if !tech[0] && vm != 0 {
